@@ -267,6 +267,11 @@ virtual clock and whatever the provider is going to answer live there). -/
 /-- the discovery document as far as the translated functions look at it (they only pass it on) -/
 structure Meta where
   doc : Nat
+/-- metadata_cache.go `MetadataCache`: the cached document (nil when there is none) and the instant up to which it is served
+    without asking the provider (the mutex and the clean-up goroutine's fields are not data) -/
+structure MetaCache where
+  metadata : Option Meta
+  expiresAt : Time
 /-- `*http.Client`, `*Logger`: passed along, never inspected by the translated functions -/
 structure HTTPClient where
 structure Logger where
